@@ -12,6 +12,8 @@ import (
 	"time"
 
 	"github.com/deckhouse/deckhouse/pkg/log"
+	corev1 "k8s.io/api/core/v1"
+	metav1 "k8s.io/apimachinery/pkg/apis/meta/v1"
 	kem "github.com/flant/shell-operator/pkg/kube_events_manager"
 	kemtypes "github.com/flant/shell-operator/pkg/kube_events_manager/types"
 	"pgregory.net/rapid"
@@ -21,10 +23,14 @@ import (
 
 type Mon struct {
 	Ns string `json:"ns"` // namespace whose ConfigMaps the monitor selects
+	// Label: the monitor selects namespaces by label (namespace.labelSelector watch=yes) instead of by name
+	Label bool `json:"label,omitempty"`
 }
 
 type Op struct {
-	K     string `json:"k"` // start stop create modify delete settle
+	K     string `json:"k"` // start stop create modify delete settle nscreate nsdelete
+	// WindowNs (start): this labelled namespace is created between the monitor's CreateInformers and its Start
+	WindowNs string `json:"window_ns,omitempty"`
 	Mon   int    `json:"mon,omitempty"`
 	Ns    string `json:"ns,omitempty"`
 	Name  string `json:"name,omitempty"`
@@ -39,6 +45,9 @@ type Case struct {
 }
 
 var namespaces = []string{"default", "ns2"}
+
+// dynNamespaces are created (with the label watch=yes) and deleted by the nscreate/nsdelete operations
+var dynNamespaces = []string{"dyn1", "dyn2"}
 var names = []string{"a", "b", "c"}
 
 func Gen(t *rapid.T) Case {
@@ -67,9 +76,36 @@ func Gen(t *rapid.T) Case {
 		o.Ns = "default"
 		c.Ops = append(c.Ops, o, Op{K: "settle"})
 	}
+	hasLabel := rapid.IntRange(0, 2).Draw(t, "labelMonitor") > 0
+	dynObj := func(k string) Op {
+		return Op{K: k, Ns: rapid.SampledFrom(dynNamespaces).Draw(t, "dns"), Name: rapid.SampledFrom(names).Draw(t, "dname"), State: rapid.IntRange(0, 5).Draw(t, "dstate")}
+	}
+	if hasLabel {
+		// the last monitor selects namespaces by label; labelled namespaces come and go
+		c.Mons[nm-1] = Mon{Label: true}
+		if rapid.Bool().Draw(t, "dynAtStart") {
+			c.Initial = append(c.Initial, Op{K: "nscreate", Ns: "dyn1"}, Op{K: "create", Ns: "dyn1", Name: "a", State: 1})
+		}
+		st := Op{K: "start", Mon: nm - 1}
+		if rapid.Bool().Draw(t, "window") {
+			st.WindowNs = "dyn2"
+			c.Initial = append(c.Initial, Op{K: "create", Ns: "dyn2", Name: "b", State: 2})
+		}
+		c.Ops = append(c.Ops, st)
+		if rapid.Bool().Draw(t, "recreate") {
+			c.Ops = append(c.Ops, Op{K: "nsdelete", Ns: "dyn1"}, Op{K: "nscreate", Ns: "dyn1"}, dynObj("modify"), Op{K: "settle"})
+		}
+	}
 	for i, n := 0, rapid.IntRange(3, 14).Draw(t, "nops"); i < n; i++ {
 		k := rapid.SampledFrom([]string{"start", "start", "stop", "create", "modify", "modify", "delete", "settle"}).Draw(t, "k")
+		if hasLabel && rapid.IntRange(0, 2).Draw(t, "dynOp") == 0 {
+			k = rapid.SampledFrom([]string{"nscreate", "nsdelete", "dcreate", "dmodify", "dmodify", "ddelete"}).Draw(t, "dk")
+		}
 		switch k {
+		case "nscreate", "nsdelete":
+			c.Ops = append(c.Ops, Op{K: k, Ns: rapid.SampledFrom(dynNamespaces).Draw(t, "nsn")})
+		case "dcreate", "dmodify", "ddelete":
+			c.Ops = append(c.Ops, dynObj(k[1:]))
 		case "start", "stop":
 			c.Ops = append(c.Ops, Op{K: k, Mon: rapid.IntRange(0, nm-1).Draw(t, "mon")})
 		case "settle":
@@ -85,6 +121,7 @@ type running struct {
 	mon    interface {
 		Snapshot() []kemtypes.ObjectAndFilterResult
 		Stop()
+		VerifInformers() []kem.VerifInformer
 	}
 	mu     sync.Mutex
 	view   map[string]int // start snapshot folded with the Events received since
@@ -141,10 +178,38 @@ func Run(c Case) (Result, error) {
 	kem.DefaultFactoryStore.Reset()
 	fc := kit.NewCluster(namespaces...)
 	cluster := map[string]int{}
+	liveDyn := map[string]bool{} // labelled namespaces that exist right now
+	var liveMu sync.Mutex         // guards liveDyn for the event callbacks
+	nsCreate := func(ns string) error {
+		if liveDyn[ns] {
+			return nil
+		}
+		_, err := fc.Client.CoreV1().Namespaces().Create(context.TODO(), &corev1.Namespace{ObjectMeta: metav1.ObjectMeta{Name: ns, Labels: map[string]string{"watch": "yes"}}}, metav1.CreateOptions{})
+		if err != nil {
+			return err
+		}
+		liveMu.Lock()
+		liveDyn[ns] = true
+		liveMu.Unlock()
+		return nil
+	}
 	apply := func(op Op) error {
 		key := op.Ns + "/" + op.Name
 		_, exists := cluster[key]
 		switch op.K {
+		case "nscreate":
+			return nsCreate(op.Ns)
+		case "nsdelete":
+			if !liveDyn[op.Ns] {
+				return nil
+			}
+			if err := fc.Client.CoreV1().Namespaces().Delete(context.TODO(), op.Ns, metav1.DeleteOptions{}); err != nil {
+				return err
+			}
+			liveMu.Lock()
+			delete(liveDyn, op.Ns)
+			liveMu.Unlock()
+			return nil
 		case "create", "modify":
 			o := kit.Obj(op.Ns, op.Name, body(op.State))
 			if exists {
@@ -179,14 +244,82 @@ func Run(c Case) (Result, error) {
 			}
 		}
 	}()
+	nsOfKey := func(k string) string {
+		for i := range k {
+			if k[i] == '/' {
+				return k[:i]
+			}
+		}
+		return k
+	}
 	matching := func(i int) map[string]int {
 		out := map[string]int{}
 		for k, v := range cluster {
-			if len(k) > len(c.Mons[i].Ns) && k[:len(c.Mons[i].Ns)+1] == c.Mons[i].Ns+"/" {
+			if c.Mons[i].Label {
+				if liveDyn[nsOfKey(k)] {
+					out[k] = v
+				}
+			} else if nsOfKey(k) == c.Mons[i].Ns {
 				out[k] = v
 			}
 		}
 		return out
+	}
+	// refold: after a labelled namespace appeared or went away, the objects of that namespace enter or leave the
+	// views of the label monitors without Events of their own (see the finding dynamic-informer-initial-list):
+	// the harness waits for the snapshots to follow (check) and then takes the namespace's objects over into the views
+	// awaitInformers waits until the label monitors have (or no longer have) resource informers for the namespace:
+	// from then on every object that appears in the namespace is reported with an Event (before that it may be
+	// cached silently, see the finding dynamic-informer-initial-list)
+	awaitInformers := func(where, ns string) {
+		for i, r := range mons {
+			if r == nil || !c.Mons[i].Label {
+				continue
+			}
+			deadline := time.Now().Add(Settle)
+			for {
+				has := false
+				for _, vi := range r.mon.VerifInformers() {
+					if vi.Dynamic && vi.Namespace == ns {
+						has = true
+					}
+				}
+				if has == liveDyn[ns] {
+					break
+				}
+				if time.Now().After(deadline) {
+					if liveDyn[ns] && res.Snapshot == "" {
+						res.Snapshot = fmt.Sprintf("%s: monitor %d (namespace.labelSelector): no resource informers exist for the labelled namespace %s %s after it appeared", where, i, ns, Settle)
+					}
+					if liveDyn[ns] && res.Events == "" {
+						res.Events = fmt.Sprintf("%s: monitor %d (namespace.labelSelector): no resource informers exist for the labelled namespace %s %s after it appeared: changes there cannot reach the hook", where, i, ns, Settle)
+					}
+					break
+				}
+				time.Sleep(time.Millisecond)
+			}
+		}
+	}
+	refold := func(ns string) {
+		for i, r := range mons {
+			if r == nil || !c.Mons[i].Label {
+				continue
+			}
+			r.mu.Lock()
+			for k := range r.view {
+				if nsOfKey(k) == ns {
+					delete(r.view, k)
+				}
+			}
+			if liveDyn[ns] {
+				for k, v := range cluster {
+					if nsOfKey(k) == ns {
+						r.view[k] = v
+					}
+				}
+			}
+			r.mu.Unlock()
+		}
 	}
 	check := func(where string) {
 		for i, r := range mons {
@@ -234,8 +367,12 @@ func Run(c Case) (Result, error) {
 				continue
 			}
 			r := &running{view: map[string]int{}}
+			isLabel := c.Mons[op.Mon].Label
 			cfg := &kem.MonitorConfig{ApiVersion: "v1", Kind: "ConfigMap", KeepFullObjectsInMemory: true,
 				NamespaceSelector: &kemtypes.NamespaceSelector{NameSelector: &kemtypes.NameSelector{MatchNames: []string{c.Mons[op.Mon].Ns}}}}
+			if c.Mons[op.Mon].Label {
+				cfg.NamespaceSelector = &kemtypes.NamespaceSelector{LabelSelector: &metav1.LabelSelector{MatchLabels: map[string]string{"watch": "yes"}}}
+			}
 			cfg.WithEventTypes(nil)
 			cfg.Metadata.MonitorId = fmt.Sprintf("mon-%d-%d", op.Mon, step)
 			cfg.Metadata.DebugName = cfg.Metadata.MonitorId
@@ -247,6 +384,16 @@ func Run(c Case) (Result, error) {
 					var ns, name string
 					fmt.Sscanf(replaceSlashes(id), "%s ConfigMap %s", &ns, &name)
 					key := ns + "/" + name
+					if isLabel {
+						// an Event of a namespace that does not match any more (still on its way when the namespace
+						// went away) says nothing about the matching objects
+						liveMu.Lock()
+						gone := !liveDyn[ns]
+						liveMu.Unlock()
+						if gone {
+							continue
+						}
+					}
 					typ := kemtypes.WatchEventType("")
 					if i < len(e.WatchEvents) {
 						typ = e.WatchEvents[i]
@@ -264,6 +411,16 @@ func Run(c Case) (Result, error) {
 			if err := m.CreateInformers(); err != nil {
 				return res, fmt.Errorf("harness: CreateInformers: %v", err)
 			}
+			windowNs := ""
+			if op.WindowNs != "" && c.Mons[op.Mon].Label && !liveDyn[op.WindowNs] {
+				// a labelled namespace appears after the monitor listed the namespaces and before its namespace
+				// informer starts
+				if err := nsCreate(op.WindowNs); err != nil {
+					return res, fmt.Errorf("harness: %v", err)
+				}
+				windowNs = op.WindowNs
+				res.Labels = append(res.Labels, "namespace-created-between-create-and-start")
+			}
 			m.Start(context.Background())
 			for _, o := range m.Snapshot() {
 				var ns, name string
@@ -273,6 +430,11 @@ func Run(c Case) (Result, error) {
 			m.EnableKubeEventCb()
 			r.mon = m
 			mons[op.Mon] = r
+			if windowNs != "" {
+				awaitInformers(where, windowNs)
+				refold(windowNs)
+				check(where + " (namespace created in the start window)")
+			}
 		case "stop":
 			if op.Mon >= len(mons) || mons[op.Mon] == nil {
 				continue
@@ -286,6 +448,37 @@ func Run(c Case) (Result, error) {
 			}
 		case "settle":
 			check(where)
+		case "nscreate", "nsdelete":
+			was := liveDyn[op.Ns]
+			if err := apply(op); err != nil {
+				return res, fmt.Errorf("harness: %v", err)
+			}
+			if was != liveDyn[op.Ns] {
+				// wait for the snapshots to follow, then take the namespace's objects over into the views
+				for i, r := range mons {
+					if r != nil && c.Mons[i].Label {
+						r.mu.Lock()
+						for k := range r.view {
+							if nsOfKey(k) == op.Ns {
+								delete(r.view, k)
+							}
+						}
+						if liveDyn[op.Ns] {
+							for k, v := range cluster {
+								if nsOfKey(k) == op.Ns {
+									r.view[k] = v
+								}
+							}
+						}
+						r.mu.Unlock()
+					}
+				}
+				awaitInformers(where, op.Ns)
+				check(where)
+				refold(op.Ns)
+				res.Labels = append(res.Labels, "labelled-namespace-"+op.K[2:])
+				res.NonTrivial = true
+			}
 		default:
 			if err := apply(op); err != nil {
 				return res, fmt.Errorf("harness: %v", err)
@@ -312,4 +505,4 @@ func replaceSlashes(s string) string {
 	return string(b)
 }
 
-const Rule = "2-3 real monitors (kubernetes bindings for ConfigMaps of a namespace, mostly the same one, so that they share one client-go informer through the factory store) on one fake cluster; 3-14 operations: start a monitor (create informers, start, take the start snapshot, enable Events), stop a monitor, create/modify/delete objects, settle; at every settle point and at the end every running monitor must, within 3s, show a snapshot equal to the matching objects of the cluster (C02) and its start snapshot folded with the Events it received must equal them too (C01). Real threads; the oracle waits for convergence. Non-trivial: objects changed after a monitor was stopped while another monitor of the same namespace kept running."
+const Rule = "2-3 real monitors (kubernetes bindings for ConfigMaps of a namespace, mostly the same one, so that they share one client-go informer through the factory store; in 2 of 3 cases one monitor selects namespaces by label, and labelled namespaces are created - also between that monitor's CreateInformers and Start - deleted and re-created) on one fake cluster; 3-14 operations: start a monitor (create informers, start, take the start snapshot, enable Events), stop a monitor, create/modify/delete objects, settle; at every settle point and at the end every running monitor must, within 3s, show a snapshot equal to the matching objects of the cluster (C02) and its start snapshot folded with the Events it received must equal them too (C01). Real threads; the oracle waits for convergence. Non-trivial: objects changed after a monitor was stopped while another monitor of the same namespace kept running."
